@@ -307,6 +307,13 @@ func (kr *KeyRegistry) LatestDataKey() (*pb.DataKey, error) {
 		// nil is for no encryption.
 		return nil, nil
 	}
+	// A read-only DB writes nothing, so it never needs a new data key, and it has no
+	// registry file open to store one in. Keep the latest key however old it is.
+	if kr.opt.ReadOnly {
+		kr.RLock()
+		defer kr.RUnlock()
+		return kr.dataKeys[kr.nextKeyID], nil
+	}
 	// validKey return datakey if the last generated key duration less than
 	// rotation duration.
 	validKey := func() (*pb.DataKey, bool) {
